@@ -847,3 +847,94 @@ func cursorStartHelper(c *Ctx, f *types.Func) bool {
 	}
 	return true
 }
+
+// R11.one-scan-per-cursor
+func init() {
+	register(&Rule{ID: "R11.one-scan-per-cursor", Props: []string{"C11"}, Floor: 5,
+		Text: "a request's cursor belongs to one iteration: every iterator of the collection skips Offset() entries and steps the cursor by that offset when it starts (R11.cursor-protocol), so a second iterator given the same cursor skips the offset again and reports a position that counts it twice. In every function of the server, no call that hands a value as collection.Cursor to an iterator is followed on any path by another such call with the same value — in particular none sits in a loop (path search on go/cfg from each call to the next). Scanning one id range per MATCH pattern with the request's scan writer loses the first CURSOR entries of every range but the first",
+		Run:  ruleOneScanPerCursor})
+}
+
+func ruleOneScanPerCursor(c *Ctx) {
+	n := 0
+	for _, fn := range c.AllFuncs("internal/server") {
+		if fn.Decl.Body == nil {
+			continue
+		}
+		info := fn.Info()
+		// calls with an argument passed for a parameter of interface type collection.Cursor
+		type site struct {
+			call *ast.CallExpr
+			cur  string
+		}
+		var sites []site
+		ast.Inspect(fn.Decl.Body, func(x ast.Node) bool {
+			call, ok := x.(*ast.CallExpr)
+			if !ok {
+				return true
+			}
+			f := callee(info, call)
+			if f == nil {
+				return true
+			}
+			sig, ok := f.Type().(*types.Signature)
+			if !ok {
+				return true
+			}
+			for i := 0; i < sig.Params().Len() && i < len(call.Args); i++ {
+				if isNamedType(sig.Params().At(i).Type(), modPath+"/internal/collection", "Cursor") {
+					if tv, ok := info.Types[call.Args[i]]; ok && tv.IsNil() {
+						continue
+					}
+					sites = append(sites, site{call, exprStr(call.Args[i])})
+				}
+			}
+			return true
+		})
+		if len(sites) == 0 {
+			continue
+		}
+		// the graph of the function or of the literal the call sits in
+		graphs := map[ast.Node]*FlowGraph{}
+		graphOf := func(call *ast.CallExpr) *FlowGraph {
+			var body *ast.BlockStmt = fn.Decl.Body
+			if lit := enclosingFuncLit(c.Program, call); lit != nil {
+				body = lit.Body
+			}
+			if graphs[body] == nil {
+				graphs[body] = newFlowGraph(info, body)
+			}
+			return graphs[body]
+		}
+		ord := map[string]int{}
+		for _, s := range sites {
+			n++
+			fg := graphOf(s.call)
+			desc := exprStr(s.call.Fun)
+			ord[desc]++
+			key := fmt.Sprintf("%s→%s", funcName(fn.Obj), desc)
+			if ord[desc] > 1 {
+				key += fmt.Sprintf("#%d", ord[desc])
+			}
+			from := fg.LocOf(s.call)
+			if !from.Valid() {
+				c.und(key, s.call.Pos(), "call not found in its flow graph")
+				continue
+			}
+			again, w := fg.Reach(PathQuery{From: from, Correlate: true, Target: func(l Loc) bool {
+				for _, t := range sites {
+					if t.cur == s.cur && graphOf(t.call) == fg && containsNode(l.Block.Nodes[l.Idx], t.call) {
+						return true
+					}
+				}
+				return false
+			}})
+			c.checkPath(!again, key, s.call.Pos(), w, "no second iteration receives the cursor "+s.cur+" after this one",
+				"after this iteration another one (or this one again, in a loop) receives the same cursor "+s.cur+": each iterator skips the cursor's offset and steps the cursor by it when it starts, so entries at the head of the later iteration are skipped although they were never returned, and the position reported for the next page counts the offset twice — pages lose entries")
+		}
+	}
+	if n == 0 {
+		c.und("sites", 0, "no call hands a value to an iterator as collection.Cursor")
+	}
+	c.stat("cursor_iteration_sites", n)
+}
